@@ -659,7 +659,7 @@ class Interp(object):
     def getattr(self, obj, name):
         if self.load_hook is not None:
             self.load_hook(obj, name)
-        if getattr(obj, '_pyvc_model', False) and not isinstance(obj, type):
+        if getattr(type(obj), '_pyvc_model', False) is True:
             from .timemodel import model_getattr
             return model_getattr(self, obj, name)
         if isinstance(obj, SymMap):
@@ -830,7 +830,7 @@ class Interp(object):
     def instantiate(self, cls, args, kwargs):
         if cls is type and len(args) == 1 and not kwargs:
             v = args[0]
-            return v.pytype if (isinstance(v, (Sym, FmtStr, SymSeq)) or getattr(v, '_pyvc_model', False)) else type(v)
+            return v.pytype if (isinstance(v, (Sym, FmtStr, SymSeq)) or (getattr(type(v), '_pyvc_model', False) is True)) else type(v)
         if cls is super:
             return self.call_native(cls, args, kwargs)
         meta = type(cls)
@@ -1690,7 +1690,7 @@ def _has_yield(node):
 
 
 def _is_symbolic(a):
-    return isinstance(a, (Sym, FmtStr, SymSeq, SymSlice, SymMap)) or getattr(a, '_pyvc_model', False)
+    return isinstance(a, (Sym, FmtStr, SymSeq, SymSlice, SymMap)) or (getattr(type(a), '_pyvc_model', False) is True)
 
 
 def _has_sym(args, kwargs):
